@@ -180,6 +180,15 @@ def cases(shard, nshards, seed, tier):
                     continue
                 if mine():
                     yield {"family": "solver-fault", "n": n, "pairs": pairs, "config": cfg, "behaviour": "ok" if cfg == "none" else beh}
+    # dot-brackets the library derives from 3D structures (Mapping2D3D): one text per strand; structures whose
+    # residue order is hostile (a chain that is not contiguous, chains out of order, reversed list, insertion codes)
+    from vmon import gen3d
+
+    for fn in [f for f in gen3d.corpus_files() if f.endswith(("488d.pdb", "4WTI_1_T-P.cif", "1DFU_1_M-N.cif", "1JJP.cif", "1ehz-assembly-1.cif", "4qln.cif", "1E7K_1_C.cif"))]:
+        for k, ops in enumerate(([], [], [{"op": "split-chain", "tail": 3}], [{"op": "chain-order", "seed": "c01", "mode": "reverse"}], [{"op": "reverse-res"}], [{"op": "icodes", "seed": "c01", "frac": 0.6}],
+                                 [{"op": "thin-res", "seed": "c01", "frac": 0.15}])):
+            if mine():
+                yield {"family": "from-3d", "file": fn, "ops": ops, "gaps": k % 2 == 0}
     nms = 200 if tier == "quick" else 3000
     for i in range(nms):
         if not mine():
@@ -190,6 +199,38 @@ def cases(shard, nshards, seed, tier):
             n = rng.randint(1, 30)
             strands.append([rng.random() < 0.5 and f">strand_{s}" or None, gen2d.seq_for(n, rng), gen2d.random_dotbracket(rng, n, rng.choice([1, 2, 4]))])
         yield {"family": "multistrand", "strands": strands}
+
+
+def _from_3d(case, rec, clause="from3d.lossless"):
+    """Per-strand dot-bracket texts derived from a 3D structure: joined over the strands they must have the
+    BPSEQ's sequence and length, use the bracket alphabet only, be balanced and decode to the BPSEQ's pairs."""
+    from rnapolis import annotator, tertiary
+    from vmon import gen3d
+
+    s = gen3d.load(case["file"])
+    if case["ops"]:
+        s = gen3d.apply_ops(s, case["ops"])
+    det = lambda extra=None: {"file": case["file"], "ops": case["ops"], "gaps": case["gaps"], "info": extra}
+    try:
+        bi = annotator.extract_base_interactions(s)
+        m = tertiary.Mapping2D3D(s, bi.basePairs, bi.stackings, case["gaps"])
+        b = m.bpseq
+        texts = [("dot_bracket", m.dot_bracket)] + [("all_dot_brackets", t) for t in m.all_dot_brackets]
+    except Exception as e:
+        rec.violation(clause.split(".")[0] + ".no-crash", det(repr(e)[:300]), mechanism=f"crash:{type(e).__name__}")
+        return
+    ok_dom, pairs = mon2d.domain(mon2d.snapshot(b))
+    rec.mark_nontrivial(bool(pairs))
+    if not ok_dom:
+        rec.skip(clause, "bpseq outside the domain (judged by C06)")
+        return
+    want_seq = "".join(e.sequence for e in b.entries)
+    for what, text in texts:
+        lines = [l for l in text.split("\n") if l and not l.startswith(">")]
+        seq, st = "".join(lines[0::2]), "".join(lines[1::2])
+        dec, why = o2d.decode(st)
+        ok = seq == want_seq and len(st) == len(want_seq) and set(st) <= o2d.ALPHABET and dec is not None and set(dec) == set(pairs) and o2d.same_level_crossing(dec) is None
+        rec.check(clause, ok, lambda: det({"what": what, "why": why, "text": text[:400], "bpseq-sequence": want_seq[:200], "cell": case.get("cell")}))
 
 
 def _max_component(f):
@@ -231,6 +272,8 @@ def run_case(case, rec):
         finally:
             _cur["ms_expect"] = None
         return
+    if fam == "from-3d":
+        return _from_3d(case, rec)
     n, pairs = case["n"], [tuple(p) for p in case["pairs"]]
     rec.mark_nontrivial(len(pairs) > 0)
     if fam == "solver-fault":
